@@ -183,7 +183,9 @@ JudgeGs(ev) ==
       ELSE IF ~C10_Safe(ev, m)
         \* a "successful" result that is not even a well-formed setting of the method: the cost and salt readers
         \* below presuppose the method's field structure and are not applied to it
+        \* (... nor does it carry the documented cost of an accepted count)
         THEN {V("C10", "Safe"), V("C13", "ValidSetting"), V("C12", "Salt")} \cup Chk(C09_Erased(ev, m), "C09", "EntropyErased")
+             \cup (IF G!DocCost(m, ev.cd).k # "reject" THEN {V("C11", "Cost")} ELSE {})
         ELSE Chk(C11_Cost(ev, m), "C11", "Cost")
            \cup Chk(C11_Accepts(ev, m), "C11", "Accepts") \cup Chk(C12_Salt(ev, m), "C12", "Salt")
            \cup Chk(C09_Erased(ev, m), "C09", "EntropyErased"))
